@@ -1,7 +1,7 @@
 (* C11 — completeness, the main statements over histories. *)
 From Coq Require Import ZArith List Bool Lia.
 From PL.C11 Require Import ModelBuilder ProofsBasics ProofsBuilder ProofsInv ProofsStep ProofsSem
-                           ProofsCompleteShape ProofsCompleteInv ProofsComplete ProofsCompleteLfp ProofsCompleteAtoms.
+                           ProofsCompleteShape ProofsCompleteInv ProofsComplete ProofsCompleteLfp ProofsCompleteAtoms ProofsCompletePos.
 Import ListNotations.
 Open Scope Z_scope.
 
@@ -36,12 +36,12 @@ Proof.
 Qed.
 
 (* ModelBuilder.lfp_val (plain Kleene iteration from all-false): equal on graphs without negative keys *)
-Theorem lfp_val_equal : forall o pcl ops r, run o pcl init ops = Ok r ->
-  posonly (rg r) -> posonly (nodes (impl r)) ->
+Theorem lfp_val_equal : forall o pcl ops r, run o pcl init ops = Ok r -> posonly (rg r) ->
   forall a n ik, nth_error (rmap r) n = Some ik ->
   lfp_val a (nodes (impl r)) ik = lfp_val a (rg r) (Some (Z.of_nat n + 1)).
 Proof.
-  intros o pcl ops r H P1 P2 a n ik Hk.
+  intros o pcl ops r H P1 a n ik Hk.
+  pose proof (posonly_inherited o pcl ops r H P1) as P2.
   unfold lfp_val.
   rewrite (vkey_ext _ (lfpN a (nodes (impl r))) ik (kleene_kleeneN a _ P2 _)).
   rewrite (vkey_ext _ (lfpN a (rg r)) (Some (Z.of_nat n + 1)) (kleene_kleeneN a _ P1 _)).
